@@ -58,7 +58,8 @@ prop("C07", "other", _GENERIC + "Proved: Name equality contract (shared with C06
 prop("C08", "other", _GENERIC + "Proved: the budget invariant of reserve/release_reserved, Renderer._rollback, and add_question as the "
      "model case of 'a record set that does not fit is removed whole' (on TooBig the buffer, counts and compression table are exactly "
      "what they were). Message.to_wire control, reserve exactness and padding are bounded.")
-prop("C09", "other", _GENERIC + "No zone-file contract is discharged yet; decided by the bounded stand-in only.", needs_obligations=False)
+prop("C09", "other", _GENERIC + "Proved: the CNAME/other-data classification rule (NodeKind.classify) against the RFC rule. The field "
+     "grammar of the reader and emitter, directives and $GENERATE are decided by the bounded stand-in.")
 prop("C10", "other", _GENERIC + "Proved: RFC 1982 Serial arithmetic and comparison contracts and the increment lemma. Transactions are bounded.")
 prop("C11", "other", _GENERIC + "Discharged: the mechanical lock-discipline obligations of dns.versioned.Zone (readers pick and register "
      "their version under the lock). Snapshot isolation, retention and immutability are bounded.")
@@ -81,4 +82,5 @@ prop("C18", "other", _GENERIC + "Proved: stream framing loops _net_read, _net_wr
      "EOFError/Timeout, never a short result). is_response, source matching and the receive loops are bounded.",
      assumptions=["A-ext: socket.recv/send and the async backend recv behave as their stated contracts"])
 prop("C19", "other", _GENERIC + "Proved: _Node.search_in_node (binary search, termination). Tree restructuring and copy-on-write are bounded.")
-prop("C20", "other", _GENERIC + "No contract discharged yet; decided by the bounded stand-in.", needs_obligations=False)
+prop("C20", "other", _GENERIC + "Proved: the node flag predicates read exactly their own bit. The invariant 'flags and delegation index "
+     "are a function of content' and bounds() are decided by the bounded stand-in (recomputation from content after every commit).")
